@@ -731,7 +731,12 @@ mod if_alloc {
     pub mod shared {
         use super::*;
         use crate::channel::shared::{ChannelReceiveFuture, ChannelSendFuture};
+        #[cfg(not(futures_intrusive_verif))]
         use core::sync::atomic::{AtomicUsize, Ordering};
+        #[cfg(futures_intrusive_verif)]
+        use crate::verif::atomic::AtomicUsize;
+        #[cfg(futures_intrusive_verif)]
+        use core::sync::atomic::Ordering;
 
         /// Shared Channel State, which is referenced by Senders and Receivers
         struct GenericChannelSharedState<MutexType, T, A>
